@@ -156,7 +156,7 @@ class PrimaiteGymEnv(gymnasium.Env):
             "episode": self.episode_counter,
             "step": step,
             "action": int(action),
-            "reward": int(reward),
+            "reward": float(reward),
             "state": state,
         }
         with open(path, "w") as file:
